@@ -154,9 +154,11 @@ Definition edge_blank (n : str) : bool :=
 Local Close Scope char_scope.
 
 (* names for which the distance clauses are checked: printable, no blank at either end, no "/"
-   (grf rewrites it); names containing a character the scanner cuts at only when [lift_s], names the
-   writer quotes only when [lift] (known findings "structural-char-in-name" / "quoted-name-position"
-   repaired, or their witnesses being evaluated) *)
+   (grf rewrites it), none of the characters get_bipartition cuts the text at (a quoted label with
+   , : ; ( ) is legal Newick and survives the round trip, but the comma/parenthesis scanner cannot
+   represent it: parentheses raise ValueError, the others are silently cut); names the writer
+   quotes only when [lift] (the finding "quoted-name-position", fixed by 3e3442f, does not reproduce).
+   [lift_s] is set only when the witness of the scanner-character class itself is evaluated. *)
 Definition name_dist_ok (lift lift_s : bool) (n : str) : bool :=
   forallb printable n && negb (edge_blank n) && negb (has_char "/"%char n)
   && (lift_s || negb (existsb scanner_char n)) && (lift || negb (existsb quote_trigger n)).
